@@ -399,12 +399,12 @@ def _subst_names(node, mapping):
     return T().visit(clone(node))
 
 
-def r6_clef_in_force(ctx):
+def r6_clef_in_force(ctx, rule='R6'):
     et = ctx.prog.func(f'{EXP}.export_token')
     nd = et.params[1]
     gets = [n for n in walk_local(et.node) if isinstance(n, ast.Call) and isinstance(n.func, ast.Attribute) and n.func.attr == 'get'
             and src(n.func.value) == f'{nd}.last_signature_nodes.nodes']
-    ctx.expect_count('R6', 'clef lookup in export_token', len(gets), 1)
+    ctx.expect_count(rule, 'clef lookup in export_token', len(gets), 1)
     # the class the listener builds for clefs
     ec = ctx.prog.func(f'{N.LISTENER}.BaseANTLRSpineParserListener.exitClef')
     built = [F.constructed_class(ctx, n, ec) for n in walk_local(ec.node) if isinstance(n, ast.Call)]
@@ -413,10 +413,10 @@ def r6_clef_in_force(ctx):
     keyed = any(isinstance(n, ast.Assign) and isinstance(n.targets[0], ast.Subscript) and src(n.targets[0].value) == 'self.nodes'
                 and src(n.targets[0].slice) == f'{up.params[1]}.token.__class__.__name__' and F.is_name(n.value, up.params[1])
                 for n in walk_local(up.node))
-    ctx.check(keyed, 'R6', up.loc, up.qualname, 'signature-key-writer', 'the signature context is keyed by the class name of the signature token')
+    ctx.check(keyed, rule, up.loc, up.qualname, 'signature-key-writer', 'the signature context is keyed by the class name of the signature token')
     for gcall in gets:
         key = ast.literal_eval(gcall.args[0]) if gcall.args and isinstance(gcall.args[0], ast.Constant) else None
-        ctx.check(key is not None and [key] == built, 'R6', f'{et.module.relpath}:{gcall.lineno}', et.qualname, 'clef-key-agreement',
+        ctx.check(key is not None and [key] == built, rule, f'{et.module.relpath}:{gcall.lineno}', et.qualname, 'clef-key-agreement',
                   f'export_token looks the clef up under {key!r}, the class name the listener builds for clefs',
                   f'export_token looks the clef up under {key!r} but the listener builds {built}: the clef in force is never found')
     env = G.single_assignments(et.node)
@@ -429,7 +429,7 @@ def r6_clef_in_force(ctx):
         # last_clef is assigned in both branches of `if last_clef_node is not None`
         assigns = [src(n.value) for n in walk_local(et.node) if isinstance(n, ast.Assign) and F.is_name(n.targets[0], src(lc))] if lc is not None else []
         ok = lc is not None and sorted(assigns) == sorted(['last_clef_node.token', 'None'])
-    ctx.check(ok, 'R6', et.loc, et.qualname, 'clef-forwarded',
+    ctx.check(ok, rule, et.loc, et.qualname, 'clef-forwarded',
               'the token of the clef node (or None when no clef was seen) is forwarded to the tokenizer factory')
     run_ = ctx.prog.func(f'{N.IMPORTER}.Importer.run')
     upd = [n for n in walk_local(run_.node) if isinstance(n, ast.Call) and src(n.func) == 'node.last_signature_nodes.update']
@@ -439,7 +439,7 @@ def r6_clef_in_force(ctx):
         if isinstance(n, ast.If) and upd and upd[0] in [x for s in n.body for x in ast.walk(s)]:
             guard = n
     oku = oku and guard is not None and src(guard.test) == 'isinstance(token, SignatureToken)'
-    ctx.check(oku, 'R6', run_.loc, run_.qualname, 'signature-context-updated',
+    ctx.check(oku, rule, run_.loc, run_.qualname, 'signature-context-updated',
               'the importer records a node in its own signature context exactly when its token is a SignatureToken (clefs included)')
     ct = ctx.prog.cls(f'{N.TOKENS}.ClefToken')
-    ctx.check(any(c.name == 'SignatureToken' for c in ctx.prog.mro(ct)), 'R6', ct.loc, ct.qualname, 'clef-is-signature', 'ClefToken is a SignatureToken')
+    ctx.check(any(c.name == 'SignatureToken' for c in ctx.prog.mro(ct)), rule, ct.loc, ct.qualname, 'clef-is-signature', 'ClefToken is a SignatureToken')
